@@ -60,26 +60,104 @@ static uint64_t CHT(void);
 static unsigned SEQ_STEPS = VERIF_SEQ_STEPS, SEQ_BUDGET = VERIF_SEQ_BUDGET;
 #endif
 
+/* ---- system under test ---- */
+static struct aws_task T[NT];
+static struct aws_task_scheduler S;
+static struct aws_allocator A;
+#define S_timed_queue_addr() S.timed_queue
+
 /* ---- the real sources (overlay copy when a built-in mutant is applied to a native unit) ---- */
 #if !defined(VERIF_SEQ_CBMC) && defined(__has_include)
 #    if __has_include("ovl/source/task_scheduler.c")
 #        define SEQ_OVL 1
 #    endif
 #endif
-#include "source/array_list.c"
-#include "source/priority_queue.c"
 static bool env_push_fails;
+#ifdef VERIF_SEQ_CBMC
+/* CBMC flavour: the heap is an executable CLIENT MODEL (the real priority_queue.c with symbolic contents is out of reach
+ * of symbolic execution here: >15 min for one operation; its own behaviour is property C06; the native flavour of this
+ * file runs the real one).  The model is the weakest heap the scheduler may rely on: a bag of (element, handle) pairs;
+ * top() hands out the slot of ANY element of minimal time (nondeterministic among ties), pop() removes the element the
+ * preceding top() showed (or any minimal one), remove() takes the element out whose handle is given and refuses a handle
+ * that is not in the queue, handles of stored elements hold their slot, others SIZE_MAX after pop/remove/node_init. */
+static struct aws_task *mq[NT + 1];
+static struct aws_priority_queue_node *mq_bp[NT + 1];
+static size_t mq_n, mq_cached;
+static bool mq_cache_ok;
+static int model_init_dynamic(struct aws_priority_queue *q, struct aws_allocator *a, size_t n, size_t isz, aws_priority_queue_compare_fn *pred) {
+    CHK(a != NULL && isz == sizeof(struct aws_task *) && pred != NULL && n > 0, "heap initialised for task pointers with a comparator");
+    memset(q, 0, sizeof(*q)); q->pred = pred; q->container.alloc = a; q->container.item_size = isz;
+    mq_n = 0; mq_cache_ok = false;
+    return AWS_OP_SUCCESS;
+}
+static bool model_is_valid(const struct aws_priority_queue *q) { return q->pred != NULL; }
+static void model_clean_up(struct aws_priority_queue *q) { CHK(mq_n == 0, "heap released while tasks are still in it"); memset(q, 0, sizeof(*q)); mq_n = 0; }
+static void model_node_init(struct aws_priority_queue_node *n) { n->current_index = SIZE_MAX; }
+static int model_push_ref(struct aws_priority_queue *q, void *item, struct aws_priority_queue_node *bp) {
+    CHK(q == &S_timed_queue_addr(), "push into the scheduler's heap");
+    if (env_push_fails) return aws_raise_error(AWS_ERROR_OOM);
+    CHK(mq_n < NT, "model heap capacity");
+    CHK(bp != NULL && bp->current_index == SIZE_MAX, "push_ref: handle says not-in-queue");
+    mq[mq_n] = *(struct aws_task **)item; mq_bp[mq_n] = bp; bp->current_index = mq_n; mq_n++;
+    mq_cache_ok = false;
+    return AWS_OP_SUCCESS;
+}
+static size_t model_min(void) {
+    if (mq_cache_ok) return mq_cached;
+    size_t k = CH(mq_n);
+    for (size_t j = 0; j < NT; j++) if (j < mq_n) __CPROVER_assume(mq[k]->timestamp <= mq[j]->timestamp);
+    mq_cached = k; mq_cache_ok = true;
+    return k;
+}
+static void model_take(size_t k, void *item) {
+    *(struct aws_task **)item = mq[k];
+    mq_bp[k]->current_index = SIZE_MAX;
+    mq_n--;
+    if (k != mq_n) { mq[k] = mq[mq_n]; mq_bp[k] = mq_bp[mq_n]; mq_bp[k]->current_index = k; }
+    mq_cache_ok = false;
+}
+static int model_top(const struct aws_priority_queue *q, void **item) {
+    (void)q;
+    if (mq_n == 0) return aws_raise_error(AWS_ERROR_PRIORITY_QUEUE_EMPTY);
+    *item = &mq[model_min()];
+    return AWS_OP_SUCCESS;
+}
+static int model_pop(struct aws_priority_queue *q, void *item) {
+    (void)q;
+    if (mq_n == 0) return aws_raise_error(AWS_ERROR_PRIORITY_QUEUE_EMPTY);
+    model_take(model_min(), item);
+    return AWS_OP_SUCCESS;
+}
+static int model_remove(struct aws_priority_queue *q, void *item, const struct aws_priority_queue_node *node) {
+    (void)q;
+    if (node->current_index >= mq_n || mq_bp[node->current_index] != node) return aws_raise_error(AWS_ERROR_PRIORITY_QUEUE_BAD_NODE);
+    model_take(node->current_index, item);
+    return AWS_OP_SUCCESS;
+}
+#    define aws_priority_queue_init_dynamic model_init_dynamic
+#    define aws_priority_queue_is_valid model_is_valid
+#    define aws_priority_queue_clean_up model_clean_up
+#    define aws_priority_queue_node_init model_node_init
+#    define aws_priority_queue_push_ref model_push_ref
+#    define aws_priority_queue_top model_top
+#    define aws_priority_queue_pop model_pop
+#    define aws_priority_queue_remove model_remove
+#    include "source/task_scheduler.c"
+#else
+#    include "source/array_list.c"
+#    include "source/priority_queue.c"
 static int ts_hook_push_ref(struct aws_priority_queue *q, void *item, struct aws_priority_queue_node *bp) {
     if (env_push_fails) return aws_raise_error(AWS_ERROR_OOM);
     return aws_priority_queue_push_ref(q, item, bp);
 }
-#define aws_priority_queue_push_ref ts_hook_push_ref
-#ifdef SEQ_OVL
-#    include "ovl/source/task_scheduler.c"
-#else
-#    include "source/task_scheduler.c"
+#    define aws_priority_queue_push_ref ts_hook_push_ref
+#    ifdef SEQ_OVL
+#        include "ovl/source/task_scheduler.c"
+#    else
+#        include "source/task_scheduler.c"
+#    endif
+#    undef aws_priority_queue_push_ref
 #endif
-#undef aws_priority_queue_push_ref
 
 /* ---- environment bodies ---- */
 static int env_last_error;
@@ -110,10 +188,7 @@ void *aws_mem_calloc(struct aws_allocator *a, size_t n, size_t s) { (void)a; voi
     return p; }
 void aws_mem_release(struct aws_allocator *a, void *p) { (void)a; free(p); }
 
-/* ---- system under test + reference model ---- */
-static struct aws_task T[NT];
-static struct aws_task_scheduler S;
-static struct aws_allocator A;
+/* ---- reference model ---- */
 
 static bool m_pend[NT], m_now[NT];
 static uint64_t m_due[NT];
@@ -210,6 +285,14 @@ static void scenario(void) {
     int rc = aws_task_scheduler_init(&S, &A);
     CHK(rc == AWS_OP_SUCCESS, "init succeeds");
     check_has_tasks();
+#ifdef VERIF_SEQ_SCRIPT
+    /* scripted shape (CBMC): the operations and their tasks are fixed, times / heap refusals / re-entrant actions symbolic */
+#    define OPN(j) { if (!m_pend[j]) do_schedule_now(j); check_has_tasks(); }
+#    define OPF(j) { if (!m_pend[j]) { uint64_t t = CHT(); bool r = SEQ_REFUSE(); do_schedule_future(j, t, r); } check_has_tasks(); }
+#    define OPC(j) { if (m_pend[j]) do_cancel(j); check_has_tasks(); }
+#    define OPR { do_run_all(CHT()); check_has_tasks(); }
+    VERIF_SEQ_SCRIPT
+#else
     for (unsigned s = 0; s < SEQ_STEPS; s++) {
         size_t op = CH(4), j = CH(NT);
         if (op == 0) { if (!m_pend[j]) do_schedule_now(j); }
@@ -218,6 +301,7 @@ static void scenario(void) {
         else { do_run_all(CHT()); }
         check_has_tasks();
     }
+#endif
     m_in_cleanup = true;
     aws_task_scheduler_clean_up(&S);
     m_in_cleanup = false;
